@@ -896,6 +896,11 @@ def gen_complement(tier, seed):
                 s = "".join(rnd.choice(SYMS[mt]) for _ in range(rnd.randint(4, 30)))
                 yield [impl, mt, "moltype", [s]]
                 yield [impl, mt, "seq", [s]]
+            # the same three methods on *views* (reverse complemented, reversed, sliced, strided; also of a sequence that
+            # a collection hands out): they must complement what the view displays
+            for _ in range(600 if thorough else 80):
+                s = "".join(rnd.choice(SYMS[mt]) for _ in range(rnd.randint(1, 12)))
+                yield [impl, mt, "view", [s]]
             for _ in range(400 if thorough else 60):
                 L = rnd.randint(1, 8)
                 seqs = ["".join(rnd.choice(SYMS[mt]) for _ in range(L)) for _ in range(rnd.randint(1, 3))]
@@ -958,6 +963,28 @@ def contract_complement(case):
                 if str(x) != s:
                     return ("fail", f"{pre}/{name}-edits-receiver", f"{s!r} became {str(x)!r}")
             return ("ok", len(s) > 0)
+        if level == "view":
+            s = seqs[0]
+            roots = [("seq", mk_seq(s, new, mt))]
+            try:
+                roots.append(("coll-seq", build(f"{impl}.coll", [["s1", s], ["s2", s[::-1]]], mt).get_seq("s1")))
+            except Exception:
+                pass
+            views = [("rc", lambda x: x.rc()), ("reversed", lambda x: x[::-1]), ("slice", lambda x: x[1:-1]),
+                     ("rc+slice", lambda x: x.rc()[1:]), ("stride", lambda x: x[::2]), ("rev-stride", lambda x: x[::-2])]
+            for rname, root in roots:
+                for vname, mk in views:
+                    v = mk(root)
+                    shown = str(v)
+                    for name, exp in (("complement", S.comp_spec(shown, mt)), ("rc", S.rc_spec(shown, mt)),
+                                      ("reverse_complement", S.rc_spec(shown, mt))):
+                        y = getattr(v, name)()
+                        if str(y) != exp:
+                            r = mismatch(name, str(y), exp, shown if name == "complement" else shown[::-1])
+                            return ("fail", r[1].replace(f"/{name}/", f"/{name}[{rname}:{vname}]/"), f"view {vname} of {rname} {s!r} shows {shown!r}: {r[2]}")
+                        if str(v) != shown:
+                            return ("fail", f"{pre}/{name}[{rname}:{vname}]-edits-receiver", f"{shown!r} became {str(v)!r}")
+            return ("ok", len(s) > 1)
         names = ["s3", "s1", "s2"][:len(seqs)]
         obj = build(f"{impl}.{level}", [[n, s] for n, s in zip(names, seqs)], mt)
         for name in ("rc", "reverse_complement"):
